@@ -29,7 +29,9 @@ FAULT_KINDS = ["strict_unconvertible", "no_delimiter", "missing_cell", "blank_ro
                "oversize_field"]
 SEPS = [None, None, ",", ";", "|", "\t"]
 NASTY = ["", " ", "x", "a b", " lead", "trail ", "\"", "q\"uo\"te", "'", "l1\nl2", "cr\rx", "crlf\r\ny",
-         "é", "\U0001d11e", "tab\there", "com,ma", "semi;colon", "pi|pe", "\"\"", "end\n", "\\", "#c", "0"]
+         "é", "\U0001d11e", "tab\there", "com,ma", "semi;colon", "pi|pe", "\"\"", "end\n", "\\", "#c", "0",
+         # characters str.splitlines() treats as line boundaries but the csv module does not
+         "ls\u2028x", "vt\x0bx", "ff\x0cx", "nel\x85x", "fs\x1cx"]
 PD_FUNCS = ["pd_compress", "pd_expand", "pd_standardize_prefix", "pd_standardize_curie", "pd_standardize_uri"]
 
 
@@ -51,7 +53,7 @@ class C16Machine(Machine):
            "target_column_last", "str_path", "pd_target_column", "later_row_also_fails",
            "result_missing_empty_cell", "target_cell_changed", "pd_missing_is_na", "pd_strict_raised",
            "zero_rows", "fault_in_other_column", "ambiguous_mode_converted_cell", "file_larger_than_8k", "table_ge_40_rows",
-           "eol_crlf", "eol_lf", "eol_mixed", "no_final_line_terminator", "sep_explicit_tab",
+           "eol_crlf", "eol_lf", "eol_mixed", "no_final_line_terminator", "sep_explicit_tab", "relative_path", "cell_with_unicode_line_boundary",
            "pd_index_custom", "pd_index_reversed", "pd_index_offset", "pd_index_duplicated", "pd_index_sliced"]
     )
 
@@ -73,7 +75,7 @@ class C16Machine(Machine):
             "strict": rng.random() < 0.3,
             "passthrough": rng.random() < 0.5,
             "ambiguous": rng.random() < 0.4,
-            "path_kind": rng.choice(["str", "path"]),
+            "path_kind": rng.choice(["str", "path", "str", "path", "relative"]),
             # shape of the input file: how its lines end, and whether the last line is terminated
             "eol": rng.choice(["crlf", "crlf", "lf", "lf", "mixed"]),
             "final_eol": rng.random() < 0.8,
@@ -419,7 +421,11 @@ class C16Machine(Machine):
             why = why + "+undecodable_bytes"
 
         # the real call
-        arg = path if op["path_kind"] == "str" else Path(path)
+        if op["path_kind"] == "relative":
+            arg = os.path.relpath(path, os.getcwd())
+            self.probe("relative_path")
+        else:
+            arg = path if op["path_kind"] == "str" else Path(path)
         err = None
         try:
             getattr(conv, func)(arg, col, sep=op["sep"], header=op["header"], strict=st, passthrough=pt, ambiguous=amb)
@@ -523,6 +529,8 @@ class C16Machine(Machine):
             if "\r" in cell:
                 self.probe("cell_with_cr")
                 quoting = True
+            if any(ch in cell for ch in "\u2028\x0b\x0c\x85\x1c"):
+                self.probe("cell_with_unicode_line_boundary")
         if changed:
             self.probe("target_cell_changed")
         if missing:
